@@ -5,7 +5,7 @@ from typing import List
 from jsonschema import FormatChecker, RefResolver
 
 from vf import templates as tp
-from vf.harness import HarnessEscape, Spec
+from vf.harness import HarnessEscape, Spec, pick
 
 META = {
     "level": "model_checking",
@@ -65,8 +65,12 @@ def summ(errs):
     return [[e.validator] + list(e.absolute_path) for e in errs]
 
 
-def interleave(d, collide, steps, third=False, same=False):
-    strs = collide == "format-str"
+STRS = ["", "a", "ab", "b"]
+
+
+def interleave(d, collide, steps, third=False, same=False, built=False):
+    strs_built = built and collide == "format-str"
+    strs = collide == "format-str" and not built
 
     def pre(x, y, sched):
         if not (len(x) <= 2 and len(y) <= 2 and len(sched) == steps):
@@ -81,6 +85,15 @@ def interleave(d, collide, steps, third=False, same=False):
         return True
 
     def body(x, y, sched):
+        if built:
+            # instances assembled from scalars inside the harness: the element objects keep their identity across iterators
+            # (proxies of symbolic containers are re-created on access), strings come from a concrete catalogue (hashable natively)
+            if strs_built:
+                x = [pick(STRS, i % len(STRS)) for i in x]
+                y = [pick(STRS, i % len(STRS)) for i in y]
+            else:
+                x = [e for e in x]
+                y = [e for e in y]
         if same:
             y = x                    # the very same instance object goes to both validators
         a, b = pair(d, collide)
@@ -119,8 +132,8 @@ def interleave(d, collide, steps, third=False, same=False):
                 body, tags=["errors", "none"])
 
 
-def cube(d, collide, steps, prefix, third=False, same=False):
-    spec = interleave(d, collide, steps, third, same)
+def cube(d, collide, steps, prefix, third=False, same=False, built=False):
+    spec = interleave(d, collide, steps, third, same, built)
     inner = spec.pre
 
     def pre(x, y, sched):
@@ -161,6 +174,11 @@ def conditions(tier, seed, active):
             for prefix in itertools.product((0, 1), repeat=2):
                 out.append(dict(id="same-instance/%s/d%d/steps%d/prefix%s" % (col, d, steps, "".join(map(str, prefix))), module=__name__, factory="cube",
                                 params=dict(d=d, collide=col, steps=steps, prefix=list(prefix), same=True), timeout=1500 if quick else 3600,
+                                tags=["errors"], witness=[]))
+        for col, sm in ((("ref", True), ("format-str", False)) if (d == 7 or not quick) else ()):
+            for prefix in itertools.product((0, 1), repeat=2):
+                out.append(dict(id="built/%s/d%d/steps%d/prefix%s" % (col, d, steps, "".join(map(str, prefix))), module=__name__, factory="cube",
+                                params=dict(d=d, collide=col, steps=steps, prefix=list(prefix), same=sm, built=True), timeout=1500 if quick else 3600,
                                 tags=["errors"], witness=[]))
         if d == 7 or not quick:
             for p0 in range(3):
